@@ -16,6 +16,9 @@
 //          captured in shared memory so that the child's messages are seen), up to three actions of a scripted TestPlugin (pre or
 //          post action of a test: print a line through the result, or record a failure for the test), up to two lines printed by
 //          tests themselves (newline-terminated, no '#').
+//          Bytes above 0x7F (decoded very last): up to three insertions of a high-byte token (valid 2/3/4-byte UTF-8 sequences, lone
+//          continuation and lead bytes, 0xFE, 0xFF, also next to ' | [ ]) into a group name, test name, file name, failure file,
+//          failure text (incl. STRCMP_EQUAL operands) or plugin text: bytes are bytes, a value has to decode to the same bytes.
 //          The registry is run 1..3 times against the SAME output object with a fresh TestResult per pass (what
 //          CommandLineTestRunner does for -rN), the order optionally reversed or re-shuffled before a pass; one case in three
 //          goes through the REAL, unmodified CommandLineTestRunner (parseArguments -> createTeamCityOutput; the stream is captured
@@ -264,6 +267,30 @@ CaseM decode(Reader& r) {
     }
     uint32_t nprint = r.below(3);
     for (uint32_t i = 0; i < nprint; i++) c.tests[r.below((uint32_t)c.tests.size())].prints.push_back(line_of_text(r));
+    // bytes above 0x7F, decoded very last: a token is inserted into one of the values that reach the stream
+    static const char* const HIGH[] = {"\xC3\xA9", "\xE2\x82\xAC", "\xF0\x9F\x98\x80", "\x80", "\xBF", "\xFF", "\xFE", "\xC3", "\xE2\x82", "\xC3\xA9'", "|\xC3\xA9", "\xE2\x82\xAC]",
+                                       "[\xFF", "\xC3\xA9\xC3\xA9\xC3\xA9", "\xC2\x80", "\xEF\xBF\xBF", "\xF4\x8F\xBF\xBF", "\xC0\xAF", "\xED\xA0\x80", "\xA9\xC3"};
+    uint32_t nhigh = r.below(4);
+    for (uint32_t i = 0; i < nhigh; i++) {
+        TestM& t = c.tests[r.below((uint32_t)c.tests.size())];
+        std::vector<std::string*> fields = {&t.name, &t.file};
+        for (auto& st : t.body) { fields.push_back(&st.text); fields.push_back(&st.file); }
+        for (auto& st : t.teardown) { fields.push_back(&st.text); fields.push_back(&st.file); }
+        for (int w = 0; w < 2; w++) if (t.pluginKind[w] == 1) fields.push_back(&t.pluginText[w]);
+        uint32_t which = r.below((uint32_t)fields.size() + 1);
+        std::string tok = HIGH[r.below(sizeof HIGH / sizeof HIGH[0])];
+        if (which == fields.size()) {   // the group name: for every test of that group, so that the suite stays one suite
+            std::string old = t.group, neu = old;
+            neu.insert(r.below((uint32_t)(old.size() > 300 ? 300 : old.size()) + 1), tok);
+            for (auto& o : c.tests) if (o.group == old) o.group = neu;
+        } else {
+            std::string& f = *fields[which];
+            bool sameFile = &f != &t.file ? false : true;
+            std::string old = f;
+            f.insert(r.below((uint32_t)(f.size() > 300 ? 300 : f.size()) + 1), tok);
+            if (sameFile) for (auto* ph : {&t.body, &t.teardown}) for (auto& st : *ph) if (st.file == old) st.file = f;   // failures "in the test's file" stay there
+        }
+    }
     return c;
 }
 
@@ -641,6 +668,13 @@ int run_and_judge(const CaseM& c, bool useKnown, bool& nontrivial) {
         if (e.knownCondition) verif::cls("failure:outside+test-file-needs-escaping");
     }
     nontrivial = special || suites >= 2;
+    {
+        bool high = false;
+        auto hb = [&](const std::string& x) { for (unsigned char ch : x) if (ch >= 0x80) high = true; };
+        for (auto& t : c.tests) { hb(t.group); hb(t.name); hb(t.file); }
+        for (auto& e : ev) if (e.kind == Event::TestFailed) { hb(e.loc); hb(e.details); }
+        if (high) verif::cls("bytes-above-0x7F-in-a-value");
+    }
     {
         size_t longest = 0;
         for (auto& t : c.tests) { longest = std::max(longest, std::max(t.group.size(), std::max(t.name.size(), t.file.size()))); }
